@@ -18,8 +18,9 @@ Proof. exact run_order_independent. Qed.
 Print Assumptions C04_order_independent.
 
 (* ... and independent of the order of the generators (GetRegisteredGenerators() ranges over the
-   registry map): same outcome, same files, and the same call sequence for every (package,
-   generator) — the log is the same set of per-generator sequences, interleaved differently. *)
+   registry map): same outcome, same files, and every generator sees the same sequence of calls
+   over the whole run ([log_equiv]: the log is a permutation, and its restriction to any one
+   generator is equal) — only the interleaving of different generators changes. *)
 Theorem C04_generator_order_independent :
   forall render parse_sum (o1 o2 : oracle) a e1 e2 w gens1 gens2 f,
     shuffles o1 -> shuffles o2 -> wf_args a -> wf_world w -> Permutation e1 e2 ->
